@@ -543,6 +543,7 @@ func corpus(tier string) []Case {
 		sp := streamSpec{ncols: 2, nrows: 3, nframes: 50, values: 2, flags: 1}
 		if pl[1] == 42 {
 			sp.flags = 0
+			sp.nframes = 70
 		}
 		s := makeStream(r, sp)
 		pos, glen := pl[0], pl[1]
@@ -553,7 +554,7 @@ func corpus(tier string) []Case {
 			c.Ops = append(c.Ops, Op{Op: "C", N: 240, T: int64(k + 1)})
 		}
 		if pl[1] == 42 { // a known finding: every failing case is shrunk by bin/check, keep it short
-			c.Ops = c.Ops[:3]
+			c.Ops = c.Ops[:5] // the checker tolerates one undelivered read: the finding shows from the second on
 		}
 		out = append(out, c)
 	}
